@@ -73,6 +73,16 @@ func (v *Variants) Get(name string) *Env {
 			exps = append(exps, "enable-check-optimizations")
 		case p == "v2":
 			exps = append(exps, "weighted_graph_check")
+		case p == "qc": // Check query (sub-problem) cache
+			opts = append(opts, server.WithCheckQueryCacheEnabled(true), server.WithCheckQueryCacheTTL(2*time.Minute))
+		case p == "ic": // Check iterator cache
+			opts = append(opts, server.WithCheckIteratorCacheEnabled(true), server.WithCheckIteratorCacheTTL(2*time.Minute), server.WithCheckIteratorCacheMaxResults(1000))
+		case p == "lic": // ListObjects iterator cache
+			opts = append(opts, server.WithListObjectsIteratorCacheEnabled(true), server.WithListObjectsIteratorCacheTTL(2*time.Minute), server.WithListObjectsIteratorCacheMaxResults(1000))
+		case p == "shi": // shared iterators
+			opts = append(opts, server.WithSharedIteratorEnabled(true))
+		case p == "cc": // cache controller, invalidation triggered by (almost) every request
+			opts = append(opts, server.WithCacheControllerEnabled(true), server.WithCacheControllerTTL(time.Millisecond))
 		case p == "thr":
 			opts = append(opts, server.WithDispatchThrottlingCheckResolverEnabled(true),
 				server.WithDispatchThrottlingCheckResolverFrequency(time.Millisecond),
